@@ -1122,3 +1122,110 @@ def do_format_search(req):
 
 
 HANDLERS.update({'color_search': do_color_search, 'format_case': do_format_case, 'format_search': do_format_search})
+
+
+# ------------------------------------------------------------------------------ C05 refute mode
+def do_interleaving_case(req):
+    """two per-thread programs, two interleavings: per-thread traces and learned names must agree"""
+    from pykdebugparser.traces_parser import TracesParser
+    codes = _cached_codes()
+    inv = {v: k for k, v in codes.items()}
+    progs = req['programs']          # {tid: [[code name, qual, values, text]]}
+
+    def build(order):
+        idx = {t: 0 for t in progs}
+        out = []
+        for t in order:
+            name, q, vals, text = progs[t][idx[t]]
+            idx[t] += 1
+            import struct
+            from pykdebugparser.kevent import from_kd_buf
+            data = text.encode().ljust(32, b'\0') if text is not None else struct.pack('<QQQQ', *vals)
+            out.append(from_kd_buf(struct.pack('<Q32sQIIQ', len(out), data, int(t), inv[name] | q, 0, 0)))
+        return out
+
+    def run(order):
+        p = TracesParser(codes, {}, {})
+        per = {}
+        for e in build(order):
+            r = p.feed(e)
+            if r is not None:
+                per.setdefault(e.tid, []).append((str(r), [(x.tid, x.eventid, x.func_qualifier, x.values) for x in r.ktraces]))
+        return per, dict(p.pids_names)
+    try:
+        a = run(req['order_a'])
+        b = run(req['order_b'])
+    except BaseException as ex:  # noqa
+        return {'violates': True, 'what': 'feed raised %s: %s' % (type(ex).__name__, ex)}
+    viol = a != b
+    return {'violates': viol, 'a': repr(a)[:600], 'b': repr(b)[:600],
+            'what': 'two interleavings of the same per-thread programs give different per-thread results / learned names: %r vs %r' % (a, b) if viol else ''}
+
+
+def do_interleaving_search(req):
+    import itertools
+    import random
+    rnd = random.Random(req.get('seed', 0))
+    pool = [['TRACE_DATA_NEWTHREAD', 0, [101, 11, 0, 0], None], ['TRACE_STRING_NEWTHREAD', 0, None, 'procA'],
+            ['TRACE_DATA_EXEC', 0, [21, 0, 0, 0], None], ['TRACE_STRING_EXEC', 0, None, 'execB'],
+            ['BSC_getpid', 1, [0, 0, 0, 0], None], ['BSC_getpid', 2, [0, 7, 0, 0], None], ['BSC_getuid', 1, [0, 0, 0, 0], None],
+            ['BSC_getuid', 2, [0, 9, 0, 0], None], ['BSC_getpid', 0, [0, 3, 0, 0], None]]
+    tried = 0
+    budget = req.get('budget', 300)
+    # directed cases first: both threads inside the same call; both threads announcing a new thread / an exec
+    directed = [[pool[4], pool[5]], [pool[0], pool[1]], [pool[2], pool[3]], [pool[0], pool[1], pool[2], pool[3]], [pool[4], pool[6], pool[7], pool[5]]]
+    for pa in directed:
+        for pb in directed:
+            progs = {}
+            for t, prog in (('5', pa), ('6', pb)):
+                pp = []
+                for e in prog:
+                    e = list(e)
+                    if e[2] is not None and e[0].startswith('TRACE_DATA'):
+                        e[2] = [e[2][0] + int(t), e[2][1] + int(t), 0, 0]
+                    if e[3] is not None:
+                        e[3] = e[3] + t
+                    pp.append(e)
+                progs[t] = pp
+            base = ['5'] * len(progs['5']) + ['6'] * len(progs['6'])
+            alt = []
+            i5 = i6 = 0
+            while i5 < len(progs['5']) or i6 < len(progs['6']):
+                if i5 < len(progs['5']):
+                    alt.append('5')
+                    i5 += 1
+                if i6 < len(progs['6']):
+                    alt.append('6')
+                    i6 += 1
+            tried += 1
+            r = do_interleaving_case({'programs': progs, 'order_a': base, 'order_b': alt})
+            if r['violates']:
+                r['request'] = {'kind': 'interleaving_case', 'programs': progs, 'order_a': base, 'order_b': alt}
+                return {'tried': tried, 'bound': 'directed two-thread programs, sequential vs alternating order', 'found': r, 'violates': True, 'what': r['what']}
+    while tried < budget:
+        progs = {}
+        for t in ('5', '6'):
+            n = rnd.randint(1, 4)
+            prog = []
+            for _ in range(n):
+                e = list(rnd.choice(pool))
+                if e[2] is not None and e[0].startswith('TRACE_DATA'):
+                    e[2] = [e[2][0] + int(t), e[2][1] + int(t), 0, 0]
+                if e[3] is not None:
+                    e[3] = e[3] + t
+                prog.append(e)
+            progs[t] = prog
+        base = ['5'] * len(progs['5']) + ['6'] * len(progs['6'])
+        orders = set(itertools.permutations(base))
+        orders = list(orders)
+        rnd.shuffle(orders)
+        for o in orders[:6]:
+            tried += 1
+            r = do_interleaving_case({'programs': progs, 'order_a': base, 'order_b': list(o)})
+            if r['violates']:
+                r['request'] = {'kind': 'interleaving_case', 'programs': progs, 'order_a': base, 'order_b': list(o)}
+                return {'tried': tried, 'bound': 'two threads, <= 4 events each, 6 interleavings per program pair', 'found': r, 'violates': True, 'what': r['what']}
+    return {'tried': tried, 'bound': 'two threads, <= 4 events each, 6 interleavings per program pair', 'found': None}
+
+
+HANDLERS.update({'interleaving_case': do_interleaving_case, 'interleaving_search': do_interleaving_search})
